@@ -21,14 +21,14 @@ CFG = {
                        "segment, embedded (a%XYb) and as a single-variable value; every sequence of 1..4 pieces over "
                        "{., %2e, %2E, a, %2f, %} as one segment (6+36+216+1296); every slash placement (1-2 leading, 1-3 "
                        "per inner gap, 0-2 trailing) for every list of <= 4 segments over {a, %2e, b%2fc}; a boundary grid "
-                       "of 3- and 4-byte escaped sequences and their prefixes; through the live server every raw byte "
-                       "inside a segment and all 256 escapes. Thorough tier: all 65536 two-byte escaped sequences "
-                       "(quick: all 256 second bytes for 28 lead bytes, 20 of them fixed at the class boundaries). "
-                       "Random spellings, 3-/4-byte sequences beyond the grid and live random targets are sampled.",
+                       "of 3- and 4-byte escaped sequences and their prefixes; all 65536 two-byte escaped sequences /%xy%zw "
+                       "(both tiers; thorough repeats the sweep in upper-case hex as a single-variable value); through the "
+                       "live server every raw byte inside a segment and all 256 escapes. Random spellings, 3-/4-byte "
+                       "sequences beyond the grid and live random targets are sampled.",
     "trusted_base": COMMON_TB + [
         "percent-encoding 2.3.1 (percent_decode_str) and core::str::from_utf8: library code, modelled concretely "
         "(Pct.v pct_decode, Utf8.v utf8_valid) and compared with the crate on the exhaustive escape sweeps and the "
-        "1-/2-byte (thorough: all 65536) and sampled 3-/4-byte sequences of this run",
+        "1-byte and 2-byte (all 65536) and sampled 3-/4-byte sequences of this run",
         "hyper 1.6 / httparse 1.10 / http 1.3 request-target parsing in the live slice: which raw bytes they refuse "
         "before dropshot is called is a predicate written in the harness (hyper_rejects) from reading their sources; "
         "targets in that class are only required to come back 400",
